@@ -10,4 +10,5 @@ globals().update(build('C07', 'Metric values equal their mathematical definition
     'harness.agg.classification',
     'harness.agg.retrieval',
     'harness.agg.text',
+    'harness.agg.generated',   # translate/scalar.py: generated scalar definitions (self-check + theorems)
 ]))
